@@ -28,6 +28,9 @@ export const NEEDS = {
   vslots: { jsx: '<A0 v-slots={{ foo: () => <B0>{f0()}</B0> }}>{f1()}</A0>' },
   identAfterAssign: { jsx: '<A0>{cap0}</A0>', decl: 'let cap0 = "c";\ncap0 = "d";' },
   identAfterAssignInFn: { jsx: '<A0>{cap1}</A0>', decl: 'let cap1 = "c";\nfunction setCap() { cap1 = "d"; }' },
+  // a user variable spelled like a generated temporary is assigned JSX that needs that temporary
+  userSlotNameAssigned: { jsx: '(_slot = <A0>{f0()}</A0>)', decl: 'let _slot = 1;' },
+  userSlotNameAssignedIdent: { jsx: '(_slot = <A0>{g0}</A0>)', decl: 'let _slot = 1;' },
   reassignOuter: { jsx: null, reassign: 'outer' },
   reassignParam: { jsx: null, reassign: 'param' },
   reassignTwice: { jsx: null, reassign: 'twice' },
@@ -113,6 +116,10 @@ export const SIBLINGS = {
   bracelessLoop: 'for (const q of [1]) Math.max(q, 1);',
   bracelessWhile: 'var wn = 0; while (wn++ < 1) Math.abs(wn);',
   stringStmt: '"marker";',
+  // ambient TypeScript blocks (these make the module TSX): they hold statement lists of their own but no code
+  tsDeclModule: 'declare module "virtual:x" { export interface Y { a: 1 } export type Z = 2; }',
+  tsDeclNamespace: 'declare namespace DN { interface I { a: 1 } type T = 2; }',
+  tsDeclGlobal: 'declare global { interface Window { z: 1 } }',
   lateImport: 'import lateC from "probe:C0";',
   lateVueImport: 'import { ref as lateRef, h as lateH } from "vue";',
   lateExportFrom: 'export { default as reexported } from "probe:C0";',
@@ -134,7 +141,7 @@ function buildCase(needName, ctxName, before, after, colliders, colliderPlace, i
   const lines = [];
   for (const i of need.imports || []) lines.push(`import ${i} from "probe:${i}";`);
   let J = need.jsx;
-  const coll = colliders.filter((c) => !(needName.startsWith('reassign') && c === '_a'));
+  const coll = colliders.filter((c) => !(needName.startsWith('reassign') && c === '_a') && !(needName.startsWith('userSlotName') && c === '_slot'));
   if (need.reassign) {
     // x = <C>{x}</C>: capture of the variable's previous value
     J = null;
@@ -165,7 +172,7 @@ function buildCase(needName, ctxName, before, after, colliders, colliderPlace, i
     }
     lines.push(body);
   }
-  if (SIBLINGS[after]) lines.push(SIBLINGS[after].replace(/lateC/, 'lateC2').replace(/lateRef/, 'lateRef2').replace(/lateH/, 'lateH2').replace(/reexported/, 'reexported2').replace(/sib(\d)/g, 'sibB$1').replace(/\bother\b/, 'otherB').replace(/\bfr\b/, 'frB').replace(/\bSib\b/, 'SibB').replace(/sibX/g, 'sibY').replace(/\bq\b/g, 'q2'));
+  if (SIBLINGS[after]) lines.push(SIBLINGS[after].replace(/virtual:x/, 'virtual:x2').replace(/\bDN\b/, 'DN2').replace(/lateC/, 'lateC2').replace(/lateRef/, 'lateRef2').replace(/lateH/, 'lateH2').replace(/reexported/, 'reexported2').replace(/sib(\d)/g, 'sibB$1').replace(/\bother\b/, 'otherB').replace(/\bfr\b/, 'frB').replace(/\bSib\b/, 'SibB').replace(/sibX/g, 'sibY').replace(/\bq\b/g, 'q2'));
   let text = lines.join('\n') + '\n';
   const innerUsed = [];
   const usedPicks = new Set();
@@ -182,7 +189,7 @@ export function* generate({ tier, seed }) {
     if (!c) return null;
     const baseOpts = NEEDS[need].options || {};
     return {
-      gid: `C06-${n++}`, src: c.src, syntax: 'jsx', spec: { env: ENV, thunk: c.thunk, colliders: c.colliders, need, ctx },
+      gid: `C06-${n++}`, src: c.src, syntax: /^ts/.test(before) || /^ts/.test(after) ? 'tsx' : 'jsx', spec: { env: ENV, thunk: c.thunk, colliders: c.colliders, need, ctx },
       feature: `${need}|${NEEDS[need].reassign ? '-' : ctx}|${before}|${after}|${colliders.length ? place + ':' + colliders.join('+') : '-'}|in=${c.innerUsed.join(',')}`,
       variants: optsList.map((o, i) => ({ vid: `v${i}`, options: { ...baseOpts, ...o } })),
     };
